@@ -2,6 +2,7 @@ import Dalek.Driver.Codec
 import Dalek.Driver.Fast
 import Dalek.Model.AlgNat
 import Dalek.Model.Ladder
+import Dalek.Model.RistrettoDalek
 import Dalek.Gen.All
 /-
   Dalek.Driver.GenCheck — second opinions computed from the TRANSLATED formulas (AlgIR items of `Dalek.Gen.Alg*`,
@@ -25,6 +26,43 @@ def by32 (s : String) : Option (List UInt8) :=
 
 def run (p : AProg) (ins : List Nat) : List Nat := p.run natOps ins
 
+/-! ### vector field: translated lane kernels (`Dalek.Gen.Avx2Field`), release semantics -/
+
+def limbs5 (s : String) : Option (List Nat) :=
+  match (parseList s).mapM parseNat with
+  | some l => if l.length = 5 ∧ l.all (· < 2 ^ 64) then some l else none
+  | none => none
+
+def lanes (args : List String) : Option (List Nat) := (args.mapM limbs5).map List.flatten
+
+def chunks5 (l : List Nat) : List (List Nat) :=
+  [l.take 5, (l.drop 5).take 5, (l.drop 10).take 5, (l.drop 15).take 5]
+
+/-- split a 40-lane vector and encode the four field elements canonically with the translated serial `as_bytes` -/
+def avx2Out (v : List Nat) : String :=
+  let parts := chunks5 (Dalek.Gen.Avx2Field.split.evalW v)
+  "ok " ++ " ".intercalate (parts.map fun l => hexEncode ((Dalek.Gen.Field51.as_bytes.evalW l).map UInt8.ofNat))
+
+def avx2New (args : List String) : Option (List Nat) := (lanes args).map Dalek.Gen.Avx2Field.new.evalW
+
+def altVec (name : String) (args : List String) : Option String :=
+  match name, args.length with
+  | "roundtrip", 4 => (avx2New args).map avx2Out
+  | "reduce", 4 => (avx2New args).map fun v => avx2Out (Dalek.Gen.Avx2Field.reduce.evalW v)
+  | "neg", 4 => (avx2New args).map fun v => avx2Out (Dalek.Gen.Avx2Field.neg.evalW v)
+  | "negate_lazy", 4 => (avx2New args).map fun v => avx2Out (Dalek.Gen.Avx2Field.negate_lazy.evalW v)
+  | "diff_sum", 4 => (avx2New args).map fun v => avx2Out (Dalek.Gen.Avx2Field.diff_sum.evalW v)
+  | "square", 4 => (avx2New args).map fun v => avx2Out (Dalek.Gen.Avx2Field.square_and_negate_D.evalW v)
+  | "mul", 8 =>
+      match avx2New (args.take 4), avx2New (args.drop 4) with
+      | some x, some y => some (avx2Out (Dalek.Gen.Avx2Field.mul.evalW (x ++ y)))
+      | _, _ => none
+  | "add", 8 =>
+      match avx2New (args.take 4), avx2New (args.drop 4) with
+      | some x, some y => some (avx2Out (Dalek.Gen.Avx2Field.add.evalW (x ++ y)))
+      | _, _ => none
+  | _, _ => none
+
 /-- the response the translated code would give, for the ops that have a translated counterpart -/
 def alt (op : String) (args : List String) : Option String :=
   match op, args with
@@ -47,7 +85,26 @@ def alt (op : String) (args : List String) : Option String :=
       match by32 k, by32 u with
       | some kb, some ub => some ("ok " ++ hexEncode (Dalek.Model.Ladder.mulClamped ub kb))
       | _, _ => none
-  | _, _ => none
+  | "ris.decompress", [b] =>
+      (by32 b).map fun bb =>
+        match Dalek.Model.RistrettoDalek.decompress bb with
+        | some p => "ok " ++ hexEncode (Dalek.Model.RistrettoDalek.compress p)
+        | none => "none"
+  | "ris.from_uniform", [b] =>
+      match hexDecode b with
+      | some bb => if bb.length = 64 then
+          some ("ok " ++ hexEncode (Dalek.Model.RistrettoDalek.compress (Dalek.Model.RistrettoDalek.fromUniformBytes bb))) else none
+      | none => none
+  | "ris.elligator", [r] => (fe r).map fun x =>
+      "ok " ++ hexEncode (Dalek.Model.RistrettoDalek.compress (Dalek.Model.RistrettoDalek.elligator x))
+  | "ris.double_compress_batch", [l] =>
+      match (parseList l).mapM (fun h => (by32 h).bind Dalek.Model.RistrettoDalek.decompress) with
+      | some ps => some ("ok " ++ fmtList ((Dalek.Model.RistrettoDalek.doubleAndCompressBatch ps).map hexEncode))
+      | none => none
+  | _, _ =>
+    match op.splitOn "." with
+    | ["vfel", "avx2", name] => altVec name args
+    | _ => none
 
 /-- combine the specification answer with the translated one -/
 def reconcile (op : String) (args : List String) (specAnswer : String) : String :=
